@@ -337,6 +337,7 @@ func derefField(t types.Type) types.Type {
 }
 
 func (a *analysis) syncOp(fr *frame, sts []*state, ce *ast.CallExpr, f *ast.SelectorExpr, op string, deferred bool) []*state {
+	op = map[string]string{"RLock": "Lock", "RUnlock": "Unlock"}[op] + map[bool]string{true: op}[op != "RLock" && op != "RUnlock"]
 	for _, st := range sts {
 		class := a.lockClass(fr, f.X)
 		if class == "" {
